@@ -68,14 +68,17 @@ where T: Canon + Encode<()> + for<'b> Decode<'b, ()>
 }
 
 /// typed decode of arbitrary bytes at a position
-fn dt<T>(inp: &[u8], pos: usize) -> String
-where T: Canon + for<'b> Decode<'b, ()>
+fn dt<T>(inp: &[u8], pos: usize, unordered: bool) -> String
+where T: Canon + Encode<()> + for<'b> Decode<'b, ()>
 {
     let mut d = Decoder::new(inp);
     d.set_position(pos);
     let (r, allocated): (Result<T, _>, usize) = crate::ops_seq::measure(|| d.decode());
     let p = d.position();
-    let out = show_res(r, p, |x| x.show());
+    // the decoded value written back by the encoder (for the data-model oracle of C04)
+    let re = r.as_ref().ok().map(|x| minicbor::to_vec(x).map(|b| hex_or_dash(&b)).unwrap_or_else(|_| "refused".into()));
+    let mut out = show_res(r, p, |x| x.show());
+    if let (Some(h), false) = (re, unordered) { out.push_str(";re="); out.push_str(&h) }
     let verdict = if p > pos.max(inp.len()) { Err(format!("position {} beyond input", p)) }
                   else if allocated > crate::ops_seq::alloc_bound(inp.len()) { Err(format!("{} bytes allocated for {} input bytes", allocated, inp.len())) }
                   else { Ok(()) };
@@ -124,7 +127,7 @@ macro_rules! registry {
             match key { $( $key => Some(dt_d::<$t>(d)), )* _ => None }
         }
         pub fn dt_dispatch(key: &str, inp: &[u8], pos: usize) -> Option<String> {
-            match key { $( $key => Some(dt::<$t>(inp, pos)), )* _ => dt_borrowed(key, inp, pos) }
+            match key { $( $key => Some(dt::<$t>(inp, pos, key.contains("set(") || key.contains("heap(") || key.contains("map("))), )* _ => dt_borrowed(key, inp, pos) }
         }
         pub const KEYS: &[&str] = &[ $( $key ),* ];
     };
@@ -179,6 +182,6 @@ pub fn pfx_handler(a: &[&str]) -> String {
 
 pub fn dt_handler(a: &[&str]) -> String {
     let inp = unhex(a[1]);
-    let pos: usize = a.get(2).map(|p| p.parse().unwrap()).unwrap_or(0);
+    let pos: usize = a.iter().skip(2).find(|t| !t.starts_with('=')).map(|p| p.parse().unwrap()).unwrap_or(0);
     dt_dispatch(a[0], &inp, pos).unwrap_or_else(|| "?bad-type".into())
 }
